@@ -689,6 +689,43 @@ def _(L, fx):
     return None
 
 
+def _then_close(name, which, steps, call):
+    """an iterator step that failed is not repeated here: the caller goes on and *closes* the iterator - what the
+    failed step may have half done must not be committed with it (after a repetition the step heals itself, after an
+    abort everything is undone anyway: neither shows a change that escaped the step's own undoing)"""
+    @op(name, retry=False)
+    def _(L, fx):
+        if which == 'scalars':
+            rc, lp = L.get_category_loop(fx.b1, '')
+        else:
+            rc, lp = CIF_OK, None
+        if rc != CIF_OK:
+            raise HarnessError('no scalar loop: %d' % rc)
+        try:
+            rc, it = L.loop_get_packets(lp or fx.loop)
+            if rc != CIF_OK:
+                raise HarnessError('cannot open the iterator: %d' % rc)
+            for _ in range(steps):
+                rc, pkt = L.it_next(it, 'new')
+                if rc != CIF_OK:
+                    raise HarnessError('next -> %d' % rc)
+                L.packet_free(pkt)
+            rc = yield (lambda: call(L, fx, it))
+            # (where the storage engine has already ended the transaction - the recorded finding - close says so)
+            if L.it_close(it) != CIF_OK and L.in_transaction(fx.cif):
+                raise HarnessError('close failed and left the transaction open')
+        finally:
+            if lp:
+                L.loop_free(lp)
+        return None
+
+
+_then_close('cif_pktitr_remove_packet:then-close', 'loop', 2, lambda L, fx, it: L.call('cif_pktitr_remove_packet', it))
+_then_close('cif_pktitr_remove_packet:scalars:then-close', 'scalars', 1, lambda L, fx, it: L.call('cif_pktitr_remove_packet', it))
+_then_close('cif_pktitr_update_packet:then-close', 'loop', 2, lambda L, fx, it: L.call('cif_pktitr_update_packet', it, fx.pk))
+_then_close('cif_pktitr_next_packet:then-close', 'loop', 1, lambda L, fx, it: L.call('cif_pktitr_next_packet', it, None))
+
+
 @op('cif_pktitr_close', retry=False)
 def _(L, fx):
     it = _open(L, fx, 1)
